@@ -54,8 +54,13 @@ def run():
         size = rnd.choice([2, 3, 5, 8, 12, 20, 50]) if not quick else rnd.choice([2, 3, 5, 8, 12])
         blocks = []
         for i in range(size):
-            kind = rnd.choice(["rule", "mem", "grammar", "split", "hostile", "zero", "long", "deep"])
-            b, _ = gen.gen_block(rnd, kind)
+            kind = rnd.choice(["rule", "mem", "grammar", "split", "hostile", "zero", "long", "deep", "dupterms", "dupterms",
+                               "stmt"])
+            if kind == "stmt":
+                st, _n = gen.gen_stmt_block(rnd)
+                b = [p for s_ in st for p in s_]
+            else:
+                b, _ = gen.gen_block(rnd, kind)
             blocks.append(("g%d_b%d" % (g, i), b, kind))
         # a block that appears twice in the history
         if size >= 3 and rnd.random() < 0.5:
